@@ -48,7 +48,11 @@ func Run(c *core.Ctx, bin, dir string, args []string, trace string, timeout time
 	if timeout == 0 {
 		timeout = 20 * time.Second
 	}
-	timeout = scaleByLoad(timeout)
+	if timeout < 0 {
+		timeout = -timeout // exact limit requested
+	} else {
+		timeout = scaleByLoad(timeout)
+	}
 	ctx, cancel := context.WithTimeout(context.Background(), timeout)
 	defer cancel()
 	cmd := exec.CommandContext(ctx, bin, args...)
